@@ -100,6 +100,9 @@ def _get_boolability_no_mvv(value: Value) -> Boolability:
     if isinstance(value, AnnotatedValue):
         value = value.value
     value = replace_known_sequence_value(value)
+    if isinstance(value, MultiValuedValue):
+        # an Annotated union, or a TypeVar that is constrained or bound to a union
+        return get_boolability(value)
     if isinstance(value, AnyValue):
         return Boolability.boolable
     elif isinstance(value, UnboundMethodValue):
